@@ -272,4 +272,247 @@ def mon_c20(ops, impl, model):
     return out
 
 
-MONITORS = {'C20': mon_c20}
+
+def _hexkey(b):
+    return b.hex()
+
+K_BURNP = (b'BurningAndMintingPaused/value/' * 2).hex()
+K_SENDP = (b'SendingAndReceivingMessagesPaused/value/' * 2).hex()
+K_NEXT = (b'NextAvailableNonce/value/' * 2).hex()
+K_THR = (b'SignatureThreshold/value/' * 2).hex()
+P_ATT = b'Attester/value/'.hex()
+P_USED = b'UsedNonce/value/'.hex()
+ROLE_OF = {}
+for _t in ['UpdateOwner', 'UpdateAttesterManager', 'UpdatePauser', 'UpdateTokenController', 'UpdateMaxMessageBodySize',
+           'AddRemoteTokenMessenger', 'RemoveRemoteTokenMessenger']:
+    ROLE_OF[_t] = b'owner'.hex()
+for _t in ['EnableAttester', 'DisableAttester', 'UpdateSignatureThreshold']:
+    ROLE_OF[_t] = b'attester-manager'.hex()
+for _t in ['PauseBurningAndMinting', 'UnpauseBurningAndMinting', 'PauseSendingAndReceivingMessages', 'UnpauseSendingAndReceivingMessages']:
+    ROLE_OF[_t] = b'pauser'.hex()
+for _t in ['LinkTokenPair', 'UnlinkTokenPair', 'SetMaxBurnAmountPerMessage']:
+    ROLE_OF[_t] = b'token-controller'.hex()
+ROLE_OF['AcceptOwner'] = b'pending-owner'.hex()
+
+
+def walk(ops, impl):
+    """Yield (i, kind, sub, opfields, implfields, store_before) where store_before is the implementation's
+    own last dump (dict hexkey -> value string) before op i, or None right after a config."""
+    store = None
+    for i, l in enumerate(ops):
+        if i >= len(impl):
+            break
+        kind, sub = O.op_kind(l)
+        if kind in ('', '#'):
+            continue
+        if kind == 'config':
+            store = None
+        yield (i, kind, sub, _kv(l), O.parse_fields(impl[i]), store)
+        if kind == 'dump':
+            store = O.store_entries(impl[i])
+
+
+def mon_c15(ops, impl, model):
+    out = []
+    for i, l in enumerate(ops):
+        if i >= len(impl) or i >= len(model):
+            break
+        kind, sub = O.op_kind(l)
+        fi = O.parse_fields(impl[i])
+        if kind == 'tx':
+            doc = O.parse_fields(model[i]).get('doc', '-')
+            docset = set() if doc in ('-', '') else set(doc.split(','))
+            w = fi.get('writes') if fi.get('out') == 'ok' else fi.get('#writes')
+            if w and w != '-':
+                for k in w.split(','):
+                    if k not in docset:
+                        out.append((i, 'tx %s wrote store key %s (class %s) outside its documented write set {%s}' % (sub, k, key_class(k), doc),
+                                    'writes-outside:%s:%s' % (sub, key_class(k))))
+                        break
+        elif kind in ('query', 'genesis-export'):
+            if '#qwrites' in fi:
+                out.append((i, '%s %s wrote to the store: %s' % (kind, sub, fi['#qwrites']), 'query-writes:%s:%s' % (kind, sub)))
+    return out
+
+
+def _msg_pair(hexmsg):
+    b = bytes.fromhex(hexmsg)
+    if len(b) < 116:
+        return None
+    return (int.from_bytes(b[4:8], 'big'), int.from_bytes(b[12:20], 'big'))
+
+
+def mon_c02(ops, impl, model):
+    out = []
+    succ = {}
+    used_prev = None
+    for (i, kind, sub, f, fi, store) in walk(ops, impl):
+        if kind == 'config':
+            succ = {}
+            used_prev = None
+        if kind == 'tx' and sub == 'ReceiveMessage' and fi.get('out') == 'ok':
+            p = _msg_pair(f.get('message', ''))
+            if p is not None:
+                succ[p] = succ.get(p, 0) + 1
+                if succ[p] > 1:
+                    out.append((i, 'a second receive succeeded for (source domain, nonce) = %s' % (p,), 'double-receive'))
+                if store is not None:
+                    k = (b'UsedNonce/value/' + p[0].to_bytes(4, 'big') + p[1].to_bytes(8, 'big') + b'/').hex()
+                    if k in store:
+                        out.append((i, 'a receive succeeded for the already used pair %s' % (p,), 'receive-of-used'))
+        if kind == 'dump':
+            used = set(k for k in O.store_entries(impl[i]) if k.startswith(P_USED))
+            if used_prev is not None and not used_prev <= used:
+                out.append((i, 'a used (source domain, nonce) pair stopped being used: %s' % sorted(used_prev - used)[:2], 'used-set-shrank'))
+            used_prev = used
+    return out
+
+
+def mon_c07(ops, impl, model):
+    out = []
+    expected = None
+    for (i, kind, sub, f, fi, store) in walk(ops, impl):
+        if kind == 'config':
+            expected = None
+        if kind == 'dump':
+            v = O.store_entries(impl[i]).get(K_NEXT)
+            cur = int(v.split(':')[2]) if v and v.startswith('nonce:') else (0 if v is None else None)
+            if expected is not None and cur is not None and cur != expected:
+                out.append((i, 'next-available-nonce is %s, expected %s (start + number of successful sends/deposits)' % (cur, expected), 'counter-drift'))
+            expected = cur
+        if kind == 'tx' and sub in PRODUCERS and fi.get('out') == 'ok' and expected is not None:
+            resp = fi.get('resp', '')
+            n = int(resp.split(':')[1]) if resp.startswith('nonce:') else None
+            if n != expected:
+                out.append((i, '%s returned nonce %s, expected %s' % (sub, n, expected), 'nonce-not-consecutive'))
+            for ev in fi.get('events', '').split('|'):
+                if ev.startswith('MessageSent{x'):
+                    b = bytes.fromhex(ev[len('MessageSent{x'):-1])
+                    if len(b) >= 20 and int.from_bytes(b[12:20], 'big') != n:
+                        out.append((i, '%s: nonce in the emitted message (%d) differs from the response nonce (%s)' % (sub, int.from_bytes(b[12:20], 'big'), n), 'message-nonce-mismatch'))
+            expected = (expected + 1) % (1 << 64)
+        if kind == 'tx' and sub in REPLACERS and fi.get('out') == 'ok':
+            orig = bytes.fromhex(f.get('message', ''))
+            for ev in fi.get('events', '').split('|'):
+                if ev.startswith('MessageSent{x') and len(orig) >= 20:
+                    b = bytes.fromhex(ev[len('MessageSent{x'):-1])
+                    if b[12:20] != orig[12:20]:
+                        out.append((i, '%s: the replacement carries nonce %d, the original %d' % (sub, int.from_bytes(b[12:20], 'big'), int.from_bytes(orig[12:20], 'big')), 'replacement-new-nonce'))
+    return out
+
+
+def _inv13(store):
+    if store is None:
+        return None
+    v = store.get(K_THR)
+    if v is None or not v.startswith('thr:'):
+        return False
+    t = int(v.split(':')[1])
+    cnt = sum(1 for k in store if k.startswith(P_ATT))
+    return 1 <= t <= cnt
+
+
+def mon_c13(ops, impl, model):
+    out = []
+    last = None
+    last_tx = None
+    for (i, kind, sub, f, fi, store) in walk(ops, impl):
+        if kind == 'config':
+            last = None
+        if kind == 'tx':
+            last_tx = (i, sub)
+        if kind == 'dump':
+            cur = _inv13(O.store_entries(impl[i]))
+            if last is True and cur is False and last_tx is not None:
+                out.append((last_tx[0], 'after %s the threshold is no longer between 1 and the number of enabled attesters' % last_tx[1], 'threshold-invariant-broken:%s' % last_tx[1]))
+            if kind == 'dump':
+                last = cur
+    return out
+
+
+def mon_c10(ops, impl, model):
+    out = []
+    for (i, kind, sub, f, fi, store) in walk(ops, impl):
+        if kind == 'tx' and sub in ROLE_OF and fi.get('out') == 'ok' and store is not None:
+            holder = store.get(ROLE_OF[sub])
+            if holder != 'role:' + f.get('from', ''):
+                out.append((i, '%s succeeded for submitter %s while the role slot holds %s' % (sub, f.get('from', '')[:40], holder), 'unauthorised-success:%s' % sub))
+    return out
+
+
+def mon_c12(ops, impl, model):
+    out = []
+    module_padded = None
+    for (i, kind, sub, f, fi, store) in walk(ops, impl):
+        if kind == 'config':
+            module_padded = '00' * 12 + f.get('module', '')
+        if kind == 'tx' and fi.get('out') == 'ok' and store is not None:
+            sp = store.get(K_SENDP) == 'flag:1'
+            bp = store.get(K_BURNP) == 'flag:1'
+            if sp and sub in USER_FLOWS:
+                out.append((i, '%s succeeded while sending-and-receiving was paused' % sub, 'flow-while-send-paused:%s' % sub))
+            if bp and sub in DEPOSITS + ['ReplaceDepositForBurn']:
+                out.append((i, '%s succeeded while burning-and-minting was paused' % sub, 'flow-while-burn-paused:%s' % sub))
+            if bp and sub == 'ReceiveMessage' and 'Mint{' in fi.get('deps', ''):
+                out.append((i, 'a mint happened while burning-and-minting was paused', 'mint-while-burn-paused'))
+    return out
+
+
+def mon_c17(ops, impl, model):
+    out = []
+    for i, l in enumerate(ops):
+        if i >= len(impl):
+            break
+        kind, sub = O.op_kind(l)
+        if kind == 'snapdiff':
+            d = O.parse_fields(impl[i]).get('diff', '-')
+            if d not in ('-', ''):
+                for k in d.split(','):
+                    name = bytes.fromhex(k).decode('latin1')
+                    sig = 'genesis-roundtrip/missing-key/%s' % (name if key_class(k) == 'role' else key_class(k))
+                    out.append((i, 'export then import into an empty chain does not reproduce store key %r' % name, sig))
+    return out
+
+
+def mon_c19(ops, impl, model):
+    """paginated list queries return every entry exactly once for every page size, key and offset mode."""
+    out = []
+    mode = None
+    acc = []
+    full = {}
+    for i, l in enumerate(ops):
+        if i >= len(impl):
+            break
+        kind, sub = O.op_kind(l)
+        if kind == '#':
+            f = _kv(l)
+            if 'pages' in f:
+                if mode is not None and mode[0] in full and acc != full[mode[0]] and mode[1] == 'key':
+                    out.append((i, 'following next_key with limit %s over %s returned %d items, the full list has %d' % (mode[2], mode[0], len(acc), len(full[mode[0]])), 'pagination-incomplete:%s' % mode[0]))
+                mode = (f['pages'], f.get('mode'), f.get('limit')) if f['pages'] != 'end' else None
+                acc = []
+            continue
+        if kind == 'query' and mode is not None and sub == mode[0]:
+            r = O.parse_fields(impl[i]).get('resp', '')
+            m = re.match(r'page:\[(.*)\]:next=([0-9a-f]*):total=(\d+)', r)
+            if m:
+                items = [x for x in m.group(1).split(';') if x]
+                if mode[1] == 'key':
+                    acc += items
+                else:
+                    total = int(m.group(3))
+                    full.setdefault(sub, None)
+        if kind == 'query' and sub in ('Attesters', 'PerMessageBurnLimits', 'TokenPairs', 'UsedNonces', 'RemoteTokenMessengers') and 'reverse=1' in l and 'countTotal=1' in l and 'key=' not in l:
+            r = O.parse_fields(impl[i]).get('resp', '')
+            m = re.match(r'page:\[(.*)\]:next=([0-9a-f]*):total=(\d+)', r)
+            if m:
+                full[sub] = list(reversed([x for x in m.group(1).split(';') if x]))
+    return out
+
+
+MONITORS = {'C20': mon_c20, 'C15': mon_c15, 'C02': mon_c02, 'C07': mon_c07, 'C13': mon_c13, 'C10': mon_c10, 'C12': mon_c12,
+            'C17': mon_c17}
+
+HOOK_COMMITS = ['cc2d018']
+# properties whose Props file exists but whose check is not registered yet: id -> reason
+NOT_READY = {}
